@@ -11,6 +11,12 @@ CHECKS = {
         text='Every straight-line graph program over the leaf/constant/operator alphabet (all sharing patterns, all output options) up to 2 statements (3 with reduced pools in thorough) plus every operator method is compiled and its bytes are checked unit by unit against the AST meaning; this decides the property for all programs below the bound, which the hand-written tests (bytes never inspected) cannot.',
         note='Trusted: mc/oracles/{scgf,poly,server_ops}.py and the reference interpreter in mc/graphprog.py. Bounds: 1 statement full pool, 2 statements small pool, 3 statements tiny pools (quick: 1/64 slice). Nothing is claimed for larger programs or other unit classes.',
         ref='5 C01'),
+    'C16': dict(
+        engine='histbfs',
+        technique='explicit-state BFS over alloc/free/double-free histories x all tie-break answers on the real allocators, Server constructors and NodeIDAllocator, against an interval-set model',
+        text="Every history up to the depth bound, including every answer of the allocator's random tie-break, for every listed size, reserved offset and client address offset, is run on the real ContiguousBlockAllocator and on Bus/Buffer constructors of a real Server for clients 0-2. Each answer must be inside the client's partition and disjoint from live ranges; 'no space' is accepted only when the model has no free run. For sizes 4-5 the reachable state space is closed (any history length). Node ids are checked for range and distinctness across wrap-around for users 0, 1, 31.",
+        note='Trusted: mc/oracles/alloc_ref.py (interval set; equal per-client slices behind the i/o channels; 26-bit id window) and the state key (block table, free lists in dict order with identity, top). choice is the only nondeterminism (rebinding sc3.base.builtins.choice). reserve() and alloc_perm are not covered. The server level uses a never-booted Server with small option values.',
+        ref='5 C16'),
     'C09': dict(
         engine='histbfs',
         technique='explicit-state BFS over all operation histories of the real TaskQueue/OscScore up to a depth, state-deduplicated, each step compared with a list reference model',
